@@ -41,7 +41,7 @@ func c01(c *wk.Ctx) {
 		c.Note("marshal_direction_not_defined_by_the_library", name)
 	}
 	idx := 0
-	perType := c.Pick(8, 40)
+	perType := c.Pick(24, 400)
 	boundary := []int{0, 1, 2, 3, 4, 5, 6, 7, 252, 253, 254, 255, 256, 257, 65535, 65536}
 	for ti, t := range types {
 		var bits []int
